@@ -281,6 +281,29 @@ func jsonMutations(doc any) []struct {
 			}{"sibling-array-[null] " + k + " at " + pstr(path), b})
 		}
 	}
+	// integers beyond every column width (1e16, the largest int64), written into the document text
+	for _, path := range paths {
+		for hi, huge := range []string{"10000000000000000", "9223372036854775807", "-9223372036854775808"} {
+			c := clone()
+			isNum := false
+			c, _ = set(c, path, func(cur any) (any, bool) {
+				if _, ok := cur.(float64); ok {
+					isNum = true
+					return 7777777.0 + float64(hi), true
+				}
+				return cur, true
+			})
+			if !isNum {
+				break
+			}
+			b, _ := json.Marshal(c)
+			b = bytes.Replace(b, []byte(fmt.Sprint(7777777+hi)), []byte(huge), 1)
+			out = append(out, struct {
+				desc string
+				doc  []byte
+			}{"huge-number " + huge + " at " + pstr(path), b})
+		}
+	}
 	for _, path := range paths {
 		muts := []struct {
 			name string
